@@ -1,5 +1,5 @@
 PROPS["C11"] = {
-    "bounds": "DispatchAggregate on arbitrary lines of 1..4 bytes in a table whose blacklist, rewriter and drop-raw aggregation match everything; a self-matching rule (regex .*, output name 'agg') wired through Table.In with one point and three ticks, cache on/off, drop-raw on/off; drop-raw exactness for names of 1..3 bytes against a first aggregation with symbolic prefix + concrete regex/notRegex, with a timestamp inside the open window and with one whose bucket is already past the wait window; drop-raw under back-pressure (worker stuck handing an aggregate over, 1-slot input buffer full, one more matching metric)",
+    "bounds": "DispatchAggregate on arbitrary lines of 1..4 bytes in a table whose blacklist, rewriter and drop-raw aggregation match everything; a self-matching rule (regex .*, output name 'agg') wired through Table.In with one point and three ticks, cache on/off, drop-raw on/off; drop-raw exactness for names of 1..3 bytes against a first aggregation with symbolic prefix + concrete regex/notRegex, with a timestamp inside the open window and with one whose bucket is already past the wait window; the input buffer overwritten before the aggregation worker runs (shared with C04); drop-raw under back-pressure (worker stuck handing an aggregate over, 1-slot input buffer full, one more matching metric)",
     "outside": "longer aggregate lines, several chained rules, the real wall-clock ticker",
     "assumptions": ["aggregations are driven through NewMocked with an injected clock and tick channel"],
     "groups": [
@@ -7,6 +7,8 @@ PROPS["C11"] = {
             spec("C11/bypass", "VerifC11Bypass"), spec("C11/noloop", "VerifC11NoLoop"),
             spec("C11/dropraw/1", "VerifC11DropRaw", {"regex": "^a(b|c)", "notRegex": "c$"}),
             spec("C11/dropraw/back-pressure", "VerifC11Backpressure"),
+            # what an aggregation consumes is the metric it was handed, also when the input reuses its buffer before the worker runs (C04's obligation)
+            spec("C11/input-buffer-reuse", "VerifC04IsolationAgg"),
             spec("C11/dropraw/late-point", "VerifC11DropRaw", {"regex": "^a(b|c)", "notRegex": "c$", "ts": "1499999900"}),
             spec("C11/dropraw/2", "VerifC11DropRaw", {"regex": "b", "notRegex": ""}),
             spec("C11/dropraw/3", "VerifC11DropRaw", {"regex": "^ab?c", "notRegex": "^abc"}, tier="thorough")]},
